@@ -353,7 +353,8 @@ struct PropSys {
             case 1: v.type = 1; v.i = -1; break;
             case 2: v.type = 2; v.r = 0.5; break;
             case 3: v.type = 3; v.s = "s"; break;
-            case 5: v.type = 0; v.u = 65537; break;  // = 1 (mod 2^16): a GDS-shaped entry made through the generic calls whose attribute is not a uint16
+            case 5: v.type = 0; v.u = 65537; break;
+            case 6: v.type = 1; v.i = 1; break;      // a SIGNED 1 under the GDS property name: [Integer 1, String] is not a GDS property  // = 1 (mod 2^16): a GDS-shaped entry made through the generic calls whose attribute is not a uint16
             default: v.type = 3; v.s = std::string("\0\xff", 2); break;
         }
         return v;
@@ -363,9 +364,9 @@ struct PropSys {
     std::vector<Op> ops;
     PropSys() {
         for (int n = 0; n < 3; n++)
-            for (int v = 0; v < 6; v++) {
+            for (int v = 0; v < 7; v++) {
                 if (n > 0 && (v == 1 || v == 2)) continue;  // full value alphabet on name "a" only
-                if (v == 5 && n != 2) continue;             // the wide attribute only under the GDS property name
+                if (v >= 5 && n != 2) continue;             // the wide attribute and the signed 1 only under the GDS property name
                 for (int cn = 0; cn < 2; cn++) ops.push_back({0, n, v, cn});
             }
         for (int at = 1; at <= 2; at++) for (int s = 0; s < 2; s++) ops.push_back({1, at, s, 0});
